@@ -29,6 +29,11 @@
      reset_reads_status : whether doRetryCheck consults the status mapping also when an upstream RESET is judged (no response): the
                              mapping of HTTP/1.1 and HTTP/2 ignores the headers and reads the x-mosn-status variable of the request
                              context, which then still holds the status of an EARLIER attempt's response
+     send_once_per_upreq : whether the UpFilter phase runs the send-filter chain only once per upstreamRequest object (a flag on it);
+                             the tree runs the chain on every entry of the phase
+     started_marked_first : whether onUpstreamHeaders sets downstreamResponseStarted BEFORE it hands the headers to the sender
+                             (appendHeaders may end the stream, clean it and give the downStream object back to the buffer pool;
+                             an assignment after that call is a write into the pooled object)
      res_counts_unlimited : whether resource.Increase / Decrease (cluster resource manager) count also while no limit is configured
                              (max == 0); CanCreate is true then in either case *)
 From Coq Require Import List ZArith Bool Arith Lia.
@@ -56,6 +61,7 @@ Record srcp := { loop_bound : nat; min_budget : nat; reset_guarded : bool; direc
   put_resets_cursor : bool; retry_checks_direct : bool; retry_refinalizes : bool; timers_reset_stream : bool; hijack_clears_body : bool;
   retry_clears_reuse : bool; setupretry_clears_reuse : bool; global_lost_cas_stops : bool; append_error_continues : bool;
   reset_excludes_global : bool; reset_reads_status : bool; res_counts_unlimited : bool;
+  send_once_per_upreq : bool; started_marked_first : bool;
   reason_code : reason -> Z }.
 
 Record cfg := {
@@ -73,16 +79,19 @@ Record cfg := {
   (* upstream protocol flavour: true = the status mapping is protocol.GetStatusCodeMapping (HTTP/1.1, HTTP/2): it ignores the headers
      and reads the x-mosn-status variable of the request context, which the client stream sets when a response arrives;
      false = the status is read from the response headers (bolt and the other xprotocols) *)
-  c_http : bool
+  c_http : bool;
+  (* host selection: from the k-th NewStream call on (k = number of attempts made so far) no healthy host / no cluster is found
+     any more (hosts taken out of the cluster while the request is in flight); None = hosts stay *)
+  c_nohost_from : option nat
 }.
 
 #[export] Instance eta_cfg : Settable _ := settable! Build_cfg
   <c_oneway; c_data; c_trailers; c_route; c_nhosts; c_retry_on; c_num_retries; c_codes; c_try_timeout; c_max_retries; c_recv; c_send;
-   c_pool; c_delay; c_snd_err_hdr; c_snd_err_data; c_snd_err_trl; c_http>.
+   c_pool; c_delay; c_snd_err_hdr; c_snd_err_data; c_snd_err_trl; c_http; c_nohost_from>.
 #[export] Instance eta_srcp : Settable _ := settable! Build_srcp
   <loop_bound; min_budget; reset_guarded; direct_clears_again; direct_cancels_retry; direct_resets_upstream; put_resets_cursor; retry_checks_direct; retry_refinalizes;
    timers_reset_stream; hijack_clears_body; retry_clears_reuse;
-   setupretry_clears_reuse; global_lost_cas_stops; append_error_continues; reset_excludes_global; reset_reads_status; res_counts_unlimited; reason_code>.
+   setupretry_clears_reuse; global_lost_cas_stops; append_error_continues; reset_excludes_global; reset_reads_status; res_counts_unlimited; send_once_per_upreq; started_marked_first; reason_code>.
 
 Inductive rkind := KUp | KHijack | KDirect.
 Record resp := { r_kind : rkind; r_code : Z; r_data : bool; r_trailers : bool;
@@ -130,13 +139,17 @@ Record st := {
   x_nog : bool;         (* doRetry started a new attempt while no global timer was armed (never armed, or already expired unheard) *)
   status_var : option Z; (* the x-mosn-status variable of the request context (tracked for the HTTP flavour only, where it is read):
                            set by the client stream when a response arrives, by sendHijackReply; never cleared between attempts *)
-  x_stale : bool        (* ghost: a RESPONSE was judged by the retry state with a status that is not that response's *)
+  x_stale : bool;       (* ghost: a RESPONSE was judged by the retry state with a status that is not that response's *)
+  rsp_filtered : bool;  (* the stored response has passed the send-filter chain since it was last replaced *)
+  upreq_filtered : bool;(* the flag on the current upstreamRequest object (only with [send_once_per_upreq]) *)
+  x_unfilt : bool;      (* ghost: reply headers were written downstream for a response that had not passed the send chain *)
+  late_started : bool   (* downstreamResponseStarted = true was written into the object AFTER it had been given back to the pool *)
 }.
 
 #[export] Instance eta_st : Settable _ := settable! Build_st
   <ph; outer; wdone; sleeping; woken; received; cleaned; up_reset; down_reset; direct; resp_started; recv_done; req_sent;
    process_done; setup_retry; again; rreason; notify; try_armed; global_armed; retry; reserved; has_upreq; up_sender; up_alive;
-   nnew; cur; rsp; route_matched; rcursor; scursor; fcalls; scalls; delayed; reuse; gave; abandoned; nfin; rc; global_ever; x_loop; x_upf; x_nog; status_var; x_stale>.
+   nnew; cur; rsp; route_matched; rcursor; scursor; fcalls; scalls; delayed; reuse; gave; abandoned; nfin; rc; global_ever; x_loop; x_upf; x_nog; status_var; x_stale; rsp_filtered; upreq_filtered; x_unfilt; late_started>.
 
 Definition init_st (rc0 : Z) : st :=
   {| ph := PInit; outer := 0; wdone := false; sleeping := false; woken := false;
@@ -146,13 +159,17 @@ Definition init_st (rc0 : Z) : st :=
      try_armed := None; global_armed := false; retry := None; reserved := false;
      has_upreq := false; up_sender := false; up_alive := false; nnew := 0; cur := 0;
      rsp := None; route_matched := false; rcursor := 0; scursor := 0; fcalls := []; scalls := []; delayed := []; reuse := true; gave := false; abandoned := false; nfin := 0; rc := rc0;
-     global_ever := false; x_loop := false; x_upf := false; x_nog := false; status_var := None; x_stale := false |}.
+     global_ever := false; x_loop := false; x_upf := false; x_nog := false; status_var := None; x_stale := false;
+     rsp_filtered := false; upreq_filtered := false; x_unfilt := false; late_started := false |}.
 
 (* The filter chain object of a finished stream goes back to a pool (streamfilter.PutStreamFilterChain) and is handed to a later
-   stream: the next request served by the same pooled object starts with the cursors that Put left in it. *)
+   stream: the next request served by the same pooled object starts with the cursors that Put left in it.  Likewise the
+   downStream object (proxyBuffers, buffer pool): zeroed at give-back, so the next owner sees what was written afterwards. *)
 Definition next_request (src : srcp) (prev : st) (rc0 : Z) : st :=
   init_st rc0 <| rcursor := if put_resets_cursor src then O else rcursor prev |>
-              <| scursor := if put_resets_cursor src then O else scursor prev |>.
+              <| scursor := if put_resets_cursor src then O else scursor prev |>
+              (* the object is zeroed when it is given back; newActiveStream sets what it needs and clears nothing else *)
+              <| resp_started := late_started prev |>.
 
 (* ---------- small enumerations ---------- *)
 Definition reason_eqb (a b : reason) : bool :=
@@ -269,9 +286,9 @@ Definition hijack (code : Z) (body : bool) : A :=
          let d := if keep then match rsp s with Some r => r_data r | None => false end else body in
          let o := if keep then match rsp s with Some r => r_body r | None => KHijack end else KHijack in
          s <| rsp := Some {| r_kind := KHijack; r_code := code; r_data := d; r_trailers := false; r_body := o |} |> <| direct := true |> <| reuse := false |>
-           <| status_var := if c_http c then Some code else status_var s |>).
+           <| status_var := if c_http c then Some code else status_var s |> <| rsp_filtered := false |>).
 Definition direct_response (code : Z) : A :=
-  upd (fun s => s <| rsp := Some {| r_kind := KDirect; r_code := code; r_data := true; r_trailers := false; r_body := KDirect |} |> <| direct := true |> <| reuse := false |>).
+  upd (fun s => s <| rsp := Some {| r_kind := KDirect; r_code := code; r_data := true; r_trailers := false; r_body := KDirect |} |> <| direct := true |> <| reuse := false |> <| rsp_filtered := false |>).
 
 (* upstreamRequest.OnResetStream(reason) *)
 Definition on_up_reset (why : reason) : A :=
@@ -444,6 +461,10 @@ Definition no_body : bool := negb (c_data c) && negb (c_trailers c).
 
 Definition budget : nat := Nat.max (min_budget src) (c_num_retries c).
 
+(* a healthy host is found for the attempt about to be made *)
+Definition hosts_ok (s : st) : bool :=
+  negb (c_nhosts c =? 0)%nat && match c_nohost_from c with Some k => (nnew s <? k)%nat | None => true end.
+
 Definition choose_host : A :=
   upd (fun s => s <| recv_done := no_body |>) ;;
   fun s =>
@@ -453,7 +474,7 @@ Definition choose_host : A :=
          | RouteDirect code body => hijack code body s
          | RouteNoCluster => hijack 404 false s
          | RouteForward =>
-           if (c_nhosts c =? 0)%nat then (emit OChoose ;; hijack 502 false) s
+           if negb (hosts_ok s) then (emit OChoose ;; hijack 502 false) s
            else (emit OChoose ;;
                  upd (fun s => s <| retry := Some budget |> <| reserved := false |> <| has_upreq := true |>)) s
          end.
@@ -473,18 +494,19 @@ Definition receive_trailers : A :=
 
 Definition do_retry_send : A :=
   emit OChoose ;;
-  if (c_nhosts c =? 0)%nat then
-    when has_upreq (upd (fun s => s <| setup_retry := false |>)) ;; hijack 502 false ;; clean_up
-  else
-    when up_alive (fun s => (s, [OLeak (cur s)])) ;;      (* the previous attempt's stream is abandoned while still open *)
+  ite (fun s => negb (hosts_ok s))
+    (* initializeUpstreamConnectionPool failed: the OLD upstreamRequest object stays *)
+    (when has_upreq (upd (fun s => s <| setup_retry := false |>)) ;; hijack 502 false ;; clean_up)
+   (when up_alive (fun s => (s, [OLeak (cur s)])) ;;      (* the previous attempt's stream is abandoned while still open *)
     (if retry_refinalizes src then upd (fun s => s <| nfin := S (nfin s) |>) else ret) ;;
     upd (fun s => s <| has_upreq := true |> <| up_sender := false |> <| up_alive := false |> <| setup_retry := false |>
+                     <| upreq_filtered := false |>      (* a new upstreamRequest object *)
                      <| x_nog := x_nog s || (negb (global_armed s) && negb (c_oneway c)) |>) ;;
     up_append_headers no_body ;;
     (if c_data c then up_append_data (negb (c_trailers c)) else ret) ;;
     (if c_trailers c then up_append_trailers else ret) ;;
     setup_per_req_timeout ;;
-    upd (fun s => s <| req_sent := true |> <| recv_done := true |>).
+    upd (fun s => s <| req_sent := true |> <| recv_done := true |>)).
 
 Definition do_retry : A :=
   (if retry_clears_reuse src then upd (fun s => s <| reuse := false |>) else ret) ;;
@@ -501,7 +523,7 @@ Definition after_append (handled err e : bool) : A :=
   if handled && negb (append_error_continues src) && err then ds_reset_stream
   else if e then end_stream else ret.
 Definition down_append_headers (e : bool) (r : resp) : A :=
-  upd (fun s => s <| process_done := e |>) ;;
+  upd (fun s => s <| process_done := e |> <| x_unfilt := x_unfilt s || negb (rsp_filtered s) |>) ;;
   (if c_oneway c then emit OPanic else emit (ODownHdr e (r_kind r) (r_code r))) ;;
   after_append true (c_snd_err_hdr c) e.
 Definition down_append_data (e : bool) (owner : rkind) : A :=
@@ -512,13 +534,20 @@ Definition down_append_trailers : A :=
   upd (fun s => s <| process_done := true |>) ;;
   (if c_oneway c then emit OPanic else emit ODownTrl) ;; after_append false (c_snd_err_trl c) true.
 
+(* the assignment `downstreamResponseStarted = true` placed after appendHeaders: into this request's object - or, when the stream was
+   ended, cleaned and the object given back inside appendHeaders, into the pooled (zeroed) object *)
+Definition late_mark : A :=
+  fun s => if gave s then (s <| late_started := true |>, []) else (s <| resp_started := true |>, []).
+Definition headers_tail (e : bool) (r : resp) : A :=
+  (if started_marked_first src then upd (fun s => s <| resp_started := true |>) else ret) ;;
+  (if e then recv_finished else ret) ;;
+  down_append_headers e r ;;
+  (if started_marked_first src then ret else late_mark).
+
 (* downStream.onUpstreamHeaders(endStream) *)
 Definition on_upstream_headers (r : resp) : A := fun s =>
   let e := negb (r_data r) && negb (r_trailers r) in
-  let tail : A :=
-    upd (fun s => s <| resp_started := true |>) ;;
-    (if e then recv_finished else ret) ;;
-    down_append_headers e r in
+  let tail : A := headers_tail e r in
   match retry s with
   | Some _ =>
     let s := s <| x_stale := x_stale s || (c_http c && negb (match status_var s with Some z => z =? r_code r | None => false end)) |> in
@@ -534,7 +563,9 @@ Definition upreq_guard (a : A) : A := ite (fun s => process_done_b s || setup_re
 
 (* UpFilter needs an action between processError and the phase increment (the fake upstreamRequest) *)
 Definition up_filter_step (s : st) : st * list out :=
-  let '(s1, o1) := run_send s in
+  let skip := send_once_per_upreq src && has_upreq s && upreq_filtered s in
+  let '(s1, o1) := if skip then (s, [])
+                   else (run_send ;; upd (fun s => s <| rsp_filtered := true |> <| upreq_filtered := send_once_per_upreq src |>)) s in
   let '(s2, o2) := finish_phase PUpRecvHeader s1 o1 in
   if phase_eqb (ph s2) PUpRecvHeader && negb (wdone s2) && negb (has_upreq s2)
   then (s2 <| has_upreq := true |> <| up_sender := false |> <| up_alive := false |>, o2)
@@ -605,7 +636,7 @@ Definition env_step (e : ev) (s : st) : st * list out :=
       if process_done_b s1 || setup_retry s1 then (s1, [])
       else if received s1 then (s1, [])
       else (s1 <| received := true |> <| rsp := Some {| r_kind := KUp; r_code := status; r_data := d; r_trailers := t; r_body := KUp |} |>
-               <| notify := true |>, [])
+               <| notify := true |> <| rsp_filtered := false |>, [])
     else (s, [])
   | EvUpReset k why =>
     if (k =? cur s)%nat && up_sender s && up_alive s then on_up_reset why (s <| up_alive := false |> <| abandoned := true |>) else (s, [])
